@@ -16,8 +16,11 @@ package main
 //            script) is copied with Env.DeepCopy / Env.Copy (also a copy of a
 //            copy); one environment is changed through the env API or by a
 //            script handed to vm.Execute with it; the views of all other
-//            environments (env API: Get / Type of every watched name, and a
-//            script reading the same names) must not change.
+//            environments (env API: Get / Type of every watched name, the value
+//            Get returns next to "undefined symbol", and a script reading the
+//            same names and the literal nil) must not change. (The change
+//            api-Addr-store — a store through the pointer Env.Addr returns for a
+//            nil-bound name — waits behind c14PendingFix_addrNilCell.)
 //   stamp    n environments are stamped from one template; the same source is
 //            run in each (in phase conc: at the same time, in the race build);
 //            all runs must yield the same value and error, and the template
@@ -35,6 +38,7 @@ package main
 import (
 	"context"
 	"fmt"
+	"reflect"
 	"strings"
 	"sync"
 	"time"
@@ -354,6 +358,10 @@ func c14EnvView(e *env.Env) string {
 			parts = append(parts, "type "+n+"=<undef>")
 		}
 	}
+	// what Get hands back next to "undefined symbol" is the environment's nil
+	if v, err := e.Get("zz_never_bound"); err != nil {
+		parts = append(parts, "nil-of-undefined="+ank.Render(v))
+	}
 	return strings.Join(parts, " ")
 }
 
@@ -365,6 +373,7 @@ var c14ScriptViewSrc = func() string {
 	for _, n := range c14WatchTypes {
 		parts = append(parts, "make("+n+") ?? "+c14U)
 	}
+	parts = append(parts, "nil")
 	return "[" + strings.Join(parts, ", ") + "]"
 }()
 
@@ -383,6 +392,15 @@ type c14EnvMut struct {
 	onTmpl bool   // a call of a template function: changes the template's bindings wherever it is called
 	apply  func(e *env.Env)
 }
+
+// c14EnvMutKinds is the number of kinds of change c14PickEnvMut draws from; the last one
+// (api-Addr-store) is held back while c14PendingFix_addrNilCell is set.
+var c14EnvMutKinds = func() int {
+	if c14PendingFix_addrNilCell {
+		return 22
+	}
+	return 23
+}()
 
 func c14Values(c *wk.Case) (interface{}, string) {
 	switch c.Rng.Intn(4) {
@@ -412,7 +430,20 @@ func c14PickEnvMut(c *wk.Case, t *c14Tmpl, allowClosures bool) c14EnvMut {
 		return c14EnvMut{kind: kind, text: "vm.Execute(e, `" + code + "`)", code: code, apply: func(e *env.Env) { ank.Exec(e, code) }}
 	}
 	for {
-		switch c.Rng.Intn(22) {
+		switch c.Rng.Intn(c14EnvMutKinds) {
+		case 22:
+			// the host binds a name to nil, asks the env API for the address of the binding and
+			// stores through it: a change of THIS environment's binding (c14PendingFix_addrNilCell)
+			n := pick(c14NewNames)
+			return c14EnvMut{kind: "api-Addr-store", text: fmt.Sprintf("e.Define(%q, nil); p, err := e.Addr(%q); if err == nil { p.Elem().Set(%s) }", n, n, sv), apply: func(e *env.Env) {
+				e.Define(n, nil)
+				p, err := e.Addr(n)
+				if err != nil || p.Kind() != reflect.Ptr || p.IsNil() || !p.Elem().CanSet() {
+					return
+				}
+				defer func() { recover() }() // a refused store changes nothing
+				p.Elem().Set(reflect.ValueOf(gv))
+			}}
 		case 0:
 			n := anyName()
 			return c14EnvMut{kind: "api-Define", text: fmt.Sprintf("e.Define(%q, %s)", n, sv), apply: func(e *env.Env) { e.Define(n, gv) }}
